@@ -346,6 +346,29 @@ def model_copy(ctx, rep, direction):
     return runs, bad
 
 
+def _sync_chunk_writes(ctx, rep):
+    """rpyc documents that asynchronous requests may be executed in any order (a peer serving with several threads executes
+    them concurrently): a transfer that keeps more than one chunk write in flight can land the chunks in the file out of order.
+    The transfer functions therefore call the remote file's methods directly (synchronous proxies) - no async_/timed wrapper,
+    no asyncreq, in the closure of upload()/download()."""
+    from .. import callgraph
+    cg = callgraph.get(ctx)
+    closure = [q for q in cg.closure([CL + ".upload", CL + ".download"]) if q.startswith(CL + ".")]
+    bad = []
+    for q in sorted(closure):
+        f = ctx.repo.funcs[q]
+        for c in A.calls(f.node):
+            d = (A.call_name(c) or "").split(".")[-1]
+            if d in ("async_", "asyncreq", "timed", "async_request", "_async_request", "BgServingThread"):
+                bad.append((c, f))
+    rep.floor("R20.6", "functions in the closure of upload()/download()", len(closure), 6)
+    rep.ob("R20.6", "upload/download: file chunks are transferred by synchronous calls only", not bad,
+           "%d functions, no asynchronous wrapper" % len(closure) if not bad else
+           "%s issues `%s`: several chunk writes can be in flight at once, and a peer that serves requests with more than one "
+           "thread may execute them out of order - the file arrives with its chunks permuted" % (
+               bad[0][1].name, A.src(bad[0][0])[:50]), ctx.loc(bad[0][0]) if bad else ctx.func(CL + ".upload").loc, kind="site")
+
+
 def run(ctx, rep):
     rep.rule("R20.1", "model evaluation: upload()/download() and their helpers, interpreted (sa/miniinterp.py, no repository code is "
                       "run) on in-memory file systems, reproduce trees and files byte for byte for every chunk size tried (below, at "
@@ -353,6 +376,9 @@ def run(ctx, rep):
                       "the source untouched")
     rep.rule("R20.2", "a path that is neither file nor directory raises ValueError unless ignore_invalid is set")
     rep.rule("R20.5", "the chunks travel whole: frame layout agreement of the channel underneath (= R05.4)")
+    rep.rule("R20.6", "the chunks of a file are written by synchronous requests, one after the other (asynchronous requests carry no "
+                      "ordering guarantee)")
+    _sync_chunk_writes(ctx, rep)
     rep.assume("file-system semantics, symlinks/special files and permissions are out of scope",
                "the model file system implements isdir/isfile/listdir/join/makedirs/mkdir/open(read, write, close) only")
     total = 0
